@@ -148,6 +148,9 @@ def _branches(model, framed):
         # 'valid' PDUs are only required not to crash or hang here (their processing is C05's
         # subject, and a decoder stricter than R-codec, e.g. about text encodings inside opaque
         # fields, may legitimately refuse them): both rows are acceptable for them as well
+        # 'undecodable' (no reading can decode it: fixed fields missing, items that do not fit
+        # the declared length) is "a PDU that cannot be decoded": Evt19 row only, like an
+        # unrecognised type
         opts.append('Evt19')
         if cls in ('malformed', 'valid') and raw[0] in OWN_EVENT:
             opts.append(OWN_EVENT[raw[0]])
